@@ -609,3 +609,47 @@ class Retained:
                 self.items = []
                 return False
         return True
+
+
+def chain(depth, via='F'):
+    """{'leaf': 1} wrapped in `depth` containers (tables, or tables and
+    arrays alternately)."""
+    v = {'leaf': 1}
+    for i in range(depth):
+        v = {'n': v} if via == 'F' or i % 2 else {'a': [v]}
+    return v
+
+
+def chain_depth(v):
+    d = 0
+    while True:
+        if isinstance(v, dict) and set(v) == {'n'}:
+            v = v['n']
+        elif isinstance(v, dict) and set(v) == {'a'} and \
+                isinstance(v['a'], list) and len(v['a']) == 1:
+            v = v['a'][0]
+        elif v == {'leaf': 1}:
+            return d
+        else:
+            return None
+        d += 1
+
+
+def deepest_accepted(enc, lo=8, hi=4000):
+    """Largest depth in [lo, hi) for which enc(depth).ok (binary search; the
+    answer depends on the interpreter's recursion limit and on how many
+    Python frames the ENCODER spends per nesting level), or None."""
+    if not enc(lo).ok:
+        return None
+    while lo + 1 < hi:
+        mid = (lo + hi) // 2
+        if enc(mid).ok:
+            lo = mid
+        else:
+            hi = mid
+    return lo
+
+
+def probe_depths(lo):
+    return [d for d in sorted({lo - 12, lo - 30, lo * 9 // 10, lo * 3 // 4,
+                               lo // 2}) if d >= 8]
